@@ -4,7 +4,7 @@ from models import fa as M
 from sim.core import FAILED
 
 ID = "C03"
-CASES = {"quick": 1500, "thorough": 25000}
+CASES = {"quick": 3000, "thorough": 25000}
 RULE = ("seeded epsilon-NFAs and ordered pairs (overlapping / disjoint alphabets, colliding state names, "
         "'a; b' and 'TrashNode' look-alikes) x value-hash schedule x PYTHONHASHSEED; each operation's result is "
         "extracted and compared exactly (pair-graph walk) with the reference set algebra; non-trivial = both "
